@@ -620,6 +620,7 @@ def check_c15(prog, rep, tier, cfg):
     cursors_in_changed_text_are_snapped(prog, rep, "C15.h")
     measurer_consults_what_decides_the_emission(prog, rep, "C15.i")
     cursor_positions_are_not_narrowed(prog, rep, "C15.j")
+    cursor_attach_table(prog, rep, "C15.k")
 
 
 CURSOR_COLLECTION_OPS = {
@@ -642,6 +643,62 @@ CURSOR_COLLECTION_OPS = {
 # first element + the rest, both written out
 PRINT_ONLY_OPS = {"core::slice::split_first": "first + rest, both printed", "core::slice::split_last": "rest + last, both printed", "alloc::slice::join": "prints the list",
                   "core::slice::len": "size only", "core::slice::is_empty": "presence only"}
+
+
+def cursor_attach_table(prog, rep, R):
+    """C15.k — "a cursor inside or at the end of a token is reported inside that same token; cursors beyond the end map to the end of the
+    output": process_cursors attaches every cursor to the first token whose end reaches it, by walking the tokens with a running
+    remainder.  One step of that walk (one cursor x one token) as a decision table: a cursor that is already attached is left alone;
+    for one that is not, the only thing that decides is the comparison of its remainder with the length of the token's text — it is
+    either attached to this token or its remainder is advanced by the token's length.  Any other condition (a bound on the offset, on
+    the index, on the kind of token) takes cursors of some position out of the search: they are then reported at the end of the
+    output (offset == input length, the position an editor reports most often) or with a stale remainder inside the wrong token."""
+    b = prog.body("<pasfmt_core::defaults::reconstructor::DelphiLogicalLinesReconstructor as pasfmt_core::traits::LogicalLinesReconstructor>::process_cursors")
+    if not rep.check(b is not None, R, "anchor:process_cursors", "DelphiLogicalLinesReconstructor::process_cursors not found"):
+        return
+    loops = b.loops()
+    inner = []
+    for h, L in loops.items():
+        outer = [(h2, L2) for h2, L2 in loops.items() if h2 != h and h in L2]
+        nx = [c for c in b.calls() if c.bb == h and (c.callee or "").endswith("Iterator::next")]
+        if outer and len(nx) == 1 and "arg2" in canon(b, nx[0].args[0]) and any(
+                "arg3" in canon(b, c.args[0]) for h2, _ in outer for c in b.calls() if c.bb == h2 and (c.callee or "").endswith("Iterator::next")):
+            inner.append((h, L, nx[0]))
+    if not rep.check(len(inner) == 1, R, "anchor:cursor-walk", "process_cursors no longer walks the tokens (outer loop) with one step per cursor (inner loop): found %d such loops" % len(inner)):
+        return
+    h, L, nx = inner[0]
+    tt = b.blocks[nx.t["target"]]["term"]
+    some = ([t_ for v, t_ in tt.get("targets", []) if v == 1] or [tt.get("otherwise")])[0]
+    try:
+        tb = Table(prog, b, start=some, stop={h}, inline=1)
+    except TooComplex as e:
+        rep.fail(R, "cursor-walk-table", "one step of the cursor walk is not a loop-free decision: %s" % e)
+        return
+    cur = "next(" + canon(b, nx.args[0]) + ")@Some.0"
+    bad = []
+    n_att = n_adv = 0
+    for (cons, res), eff in zip(tb.rows, tb.effects):
+        state = [c[2] for c in cons if c[0] == "is" and str(c[1]).startswith(cur) and c[2] in ("Some", "None")]
+        conds = [c for c in cons if c[0] == "cond"]
+        other = [c[1] for c in conds if not (re.match(r"^(Le|Lt|Ge|Gt)\(", c[1]) and cur in c[1] and "len(get_str(" in c[1])]
+        if other:
+            bad.append("an additional condition decides whether a cursor is searched for: %s" % other[0][:110])
+            continue
+        if state == ["Some"]:
+            if eff:
+                bad.append("a cursor that is already attached is modified")
+            continue
+        attaches = any(render(v).startswith("Some(") for k, v in eff)
+        advances = any("Sub(" in render(v) and "len(get_str(" in render(v) for k, v in eff)
+        if attaches:
+            n_att += 1
+        elif advances:
+            n_adv += 1
+        else:
+            bad.append("a cursor that is not attached yet is neither attached to the token nor advanced past it")
+    rep.check(not bad and n_att >= 1 and n_adv >= 1, R, "cursor-walk-table",
+              "one step of process_cursors' walk deviates from `attached: untouched; else remainder <= token length ? attach : advance`: %s" % (bad[:2] or "no attach / advance row"),
+              where="%s:%d" % (b.file, b.line), instance={"paths": len(tb.rows), "attach_rows": n_att, "advance_rows": n_adv, "deviations": bad[:3]})
 
 
 def cursor_independence(prog, rep, R):
